@@ -19,7 +19,12 @@ deserialisation accepts and on every generated private key, all three parameter 
       (derivation): symbolic runs with t1 as named symbols, all 256*256*k coefficients compared.
       Verification uses the precompute only through Montgomery products reduced modulo q, so keys
       with equal (rho, tr, t1) decide every input identically whichever way they were built.
-Not decided: that t1 recomputed from (rho, s1, s2) equals the generated t1 (ring arithmetic).
+  D7  the ring arithmetic of the derivation, symbolically: t = NTT^-1(A-hat o s1-hat) + NTT^-1(s2-hat)
+      with s1-hat, s2-hat the key's stored precomputes divided by the Montgomery factor.  The stored
+      precomputes are 2^32 * NTT(s1), 2^32 * NTT(s2) of the sampled / decoded s1, s2 (C04 K9, C09 P5),
+      key generation computes t = NTT^-1(A-hat o NTT(s1)) + s2 (C04 K10) and the transforms are the
+      FIPS maps (C18 F): the derived t, hence t1, equals the generated one.
+Trusted: hash implementations; NTT^-1(NTT(s2)) = s2 is C18 F.
 """
 import os
 import sys
@@ -118,6 +123,8 @@ def analyse(rep, ob, tier, prefix="", with_use=True):
         jobs[s + ":pre:from_bytes"] = [("%s:pre:from_bytes" % s, n["pk_from_bytes"], dict(LIN, atomize="conversion::simple_bit_unpack"))]
         for prod in roots.SK_PRODUCERS:
             jobs[s + ":pre:derived/" + prod] = [("%s:pre:derived/%s" % (s, prod), n["get_public_key"], dict(LIN, atomize="high_low::power2round", sk=prod))]
+        jobs[s + ":ring"] = [("%s:ring" % s, n["get_public_key"], {"sk": "from_bytes", "modulus": "8380417", "lin.cap": "600", "atoms.key": "1",
+                                                                  "atomize": "hashing::rej_ntt_poly|ntt::inv_ntt", "dump_args": "ntt::inv_ntt|high_low::power2round"})]
     res, errs = aicheck.run_sets(jobs, timeout=6000)
     assume = aicheck.load_assume()
     samples = []
@@ -220,6 +227,38 @@ def analyse(rep, ob, tier, prefix="", with_use=True):
             ob(ok6, "D6:same-precompute-map:%s" % nm,
                {"rule": "D6 the verification precompute is the same linear function of t1 modulo q in key generation, deserialisation and derivation (verification depends on it only modulo q)",
                 "set": s, "construction": nm, "coefficients_compared": 256 * 256 * k, "first_differing_output": first})
+        # D7: the ring arithmetic of the derivation, symbolically
+        rr = res.get(s + ":ring")
+        if rr is None or rr["jobs"][0].get("error"):
+            vlib.fail_closed(rep, "driver-ring:%s" % s, (errs.get(s + ":ring") or str(rr and rr["jobs"][0].get("error")))[-400:])
+        else:
+            Qm = 8380417
+            RINV = pow(pow(2, 32, Qm), Qm - 2, Qm)
+            l_ = P["l"]
+
+            def parse(p):
+                out = []
+                for line in p["data"]["forms"].split("\n"):
+                    if line == "":
+                        continue
+                    if line == "-":
+                        out.append(None)
+                        continue
+                    m_, d_, terms = line.split("|", 2)
+                    out.append((int(m_), int(d_), {t.rsplit(":", 1)[0]: int(t.rsplit(":", 1)[1]) for t in terms.split(",") if t}))
+                return out
+            pr = [p for p in rr["jobs"][0]["probes"] if p["what"] == "arg_forms" and "private_to_public_key" in p["data"].get("path", "")]
+            iv = [p for p in pr if p["inst"].startswith("ntt::inv_ntt")]
+            p2 = [p for p in pr if p["inst"].startswith("high_low::power2round")]
+            ok7 = len(iv) == 2 and len(p2) == 1
+            if ok7:
+                fs2, fas, ft = parse(iv[0]), parse(iv[1]), parse(p2[0])
+                ok7 = len(fs2) == 256 * k and all(f == (Qm, 0, {"sk.s_2_hat_mont[%d]" % i: RINV}) for i, f in enumerate(fs2)) \
+                    and len(fas) == 256 * k and all(f == (Qm, 0, {"(rej_ntt_poly#%d[%d]*sk.s_1_hat_mont[%d])" % ((i // 256) * l_ + j, i % 256, j * 256 + i % 256): RINV for j in range(l_)}) for i, f in enumerate(fas)) \
+                    and len(ft) == 256 * k and all(f == (Qm, 0, {"inv_ntt#0[%d]" % i: 1, "inv_ntt#1[%d]" % i: 1}) for i, f in enumerate(ft))
+            ob(ok7, "D7:derivation-arithmetic", {"rule": "D7 the derivation computes t = NTT^-1(A-hat o s1-hat) + NTT^-1(s2-hat) from the key's precomputes (their Montgomery factor removed: "
+                                                          "coefficient 2^-32 modulo q), then Power2Round", "set": s, "inv_ntt_calls": len(iv),
+                                                 "first_forms": [p["data"]["forms"].split("\n")[0][:200] for p in iv + p2]})
         vs = [x for x in r["sites"] if x["violated"]]
         viol, assumed, _ = aicheck.classify(vs, assume)
         for x in viol:
